@@ -78,3 +78,30 @@ fn c12_sam_read_field_any_split() {
     assert!(dst.len() == 2 && dst[0] == b[0] && dst[1] == b[1]);
     std::mem::forget(dst);
 }
+
+fn read_line_step<const L: usize>() {
+    // arbitrary pre-state: the 11 mandatory fields already in the line buffer (their last 2 bytes arbitrary)
+    let pre: [u8; 2] = kani::any();
+    let mut dst: Vec<u8> = Vec::with_capacity(8);
+    dst.push(pre[0]);
+    dst.push(pre[1]);
+    let data: [u8; L] = kani::any();
+    let mut src = ChunkyLines(ChunkyBuf::new(&data).with_partial_budget(0));
+    match read_line(&mut src, &mut dst) {
+        Ok(n) => {
+            assert!(n <= L);
+            assert!(dst.len() >= 2, "read_line removed a byte of a previous field");
+            assert!(dst[0] == pre[0] && dst[1] == pre[1]);
+            kani::cover!(n == 1 && dst.len() == 2);
+        }
+        Err(e) => std::mem::forget(e),
+    }
+    std::mem::forget(dst);
+}
+
+// @verif prop=C15 id=O15.sam.line-step/2 tier=quick unwind=6 stubs="ChunkyLines::read_until = plain loop with the std contract (std's word-at-a-time memchr + Vec::extend_from_slice do not fit)" bound="the LAST step of sam read_record -- read_line appending the optional fields to the line buffer -- from an ARBITRARY pre-state (2 arbitrary bytes left by the mandatory fields) over an ARBITRARY 2-byte rest of line: the bytes of the earlier fields are still there afterwards (same invariant as O15.sam.field-step)" fns="sam::io::reader::read_line"
+#[kani::proof]
+#[kani::unwind(6)]
+fn c15_sam_read_line_keeps_previous_fields_2() {
+    read_line_step::<2>();
+}
